@@ -1284,6 +1284,7 @@ func c3Time(c *Ctx) {
 	_ = field
 	// Path exploration: which form is returned after which outcome of the two range tests
 	vn := PN(fn.Params[1])
+	sawBounds := map[string]bool{}
 	seqs, trunc := ConcPaths(fn, ConcCfg{
 		Event: func(in ssa.Instruction, st *ConcState) string {
 			r, ok := in.(*ssa.Return)
@@ -1327,11 +1328,19 @@ func c3Time(c *Ctx) {
 				}
 				return n + "=F"
 			}
-			switch d {
-			case "Before(" + vn + ", _minTimeInt64)":
-				return tf("before")
-			case "After(" + vn + ", _maxTimeInt64)":
-				return tf("after")
+			// val.Before(<the earliest instant UnixNano can represent>) / val.After(<the latest>): the bound is
+			// whatever package-level variable (or field of one) the initialiser sets to time.Unix(0, MinInt64/MaxInt64)
+			if cl, isCall := cond.(*ssa.Call); isCall && len(cl.Call.Args) == 2 && st.Desc(cl.Call.Args[0]) == vn {
+				bound := c3GlobalInit(c, st, cl.Call.Args[1])
+				switch {
+				case IsCallTo(cl, "(time.Time).Before") && bound == "Unix(0, -9223372036854775808)":
+					sawBounds["min"] = true
+					return tf("before")
+				case IsCallTo(cl, "(time.Time).After") && bound == "Unix(0, 9223372036854775807)":
+					sawBounds["max"] = true
+					return tf("after")
+				}
+				return "cond(" + d + " with bound " + bound + ")"
 			}
 			return "cond(" + d + ")"
 		},
@@ -1376,23 +1385,7 @@ func c3Time(c *Ctx) {
 		}
 	}
 	c.Check(!trunc && len(bad) == 0 && sawT && sawF, "R3.5", name, "nanos-only-in-range", fn.Pos(), "over all %d paths of zap.Time: the int64-nanosecond form (TimeType, UnixNano, Location) is returned exactly after both range tests (before _minTimeInt64, after _maxTimeInt64) came out false; otherwise the time is carried whole (TimeFullType, Interface = the value): %v", len(seqs), bad)
-	// bounds
-	init := c.Func(ZapPath, "init")
-	okMin, okMax := false, false
-	AllInstrs(init, func(i ssa.Instruction) {
-		if st, ok := i.(*ssa.Store); ok {
-			if g, ok := st.Addr.(*ssa.Global); ok {
-				d := Desc(st.Val)
-				if g.Name() == "_minTimeInt64" {
-					okMin = d == "Unix(0, -9223372036854775808)"
-				}
-				if g.Name() == "_maxTimeInt64" {
-					okMax = d == "Unix(0, 9223372036854775807)"
-				}
-			}
-		}
-	})
-	c.Check(okMin && okMax, "R3.5", "go.uber.org/zap._minTimeInt64/_maxTimeInt64", "bounds", init.Pos(), "the range bounds are time.Unix(0, math.MinInt64) and time.Unix(0, math.MaxInt64)")
+	c.Check(sawBounds["min"] && sawBounds["max"], "R3.5", "go.uber.org/zap._minTimeInt64/_maxTimeInt64", "bounds", fn.Pos(), "the range tests compare with time.Unix(0, math.MinInt64) and time.Unix(0, math.MaxInt64), as set by the package initialiser (%v)", sawBounds)
 	// AddTo rebuild
 	addTo := c.Method(CorePath, "Field", "AddTo")
 	nT := 0
@@ -1826,4 +1819,84 @@ func c3NoFuncPayload(c *Ctx, rule string, byType map[string][]fieldLit) {
 			return true
 		})
 	})
+}
+
+// c3GlobalInit: v is (a load of) a package-level variable of zap, or of a field of one (possibly reached through a
+// local pointer to it): the rendering of what the package initialiser stores there ("" when that is not evident).
+func c3GlobalInit(c *Ctx, st *ConcState, v ssa.Value) string {
+	for k := 0; k < 8; k++ {
+		nx := st.Step(v)
+		if nx == nil {
+			break
+		}
+		v = nx
+	}
+	ld, ok := v.(*ssa.UnOp)
+	if !ok || ld.Op != token.MUL {
+		return ""
+	}
+	// access path below the global
+	var path []string
+	a := ld.X
+	for k := 0; k < 8; k++ {
+		if fa, isFA := a.(*ssa.FieldAddr); isFA {
+			path = append([]string{fieldName(fa.X.Type(), fa.Field)}, path...)
+			a = fa.X
+			continue
+		}
+		if nx := st.Step(a); nx != nil {
+			a = nx
+			continue
+		}
+		break
+	}
+	g, isG := a.(*ssa.Global)
+	if !isG || g.Pkg == nil {
+		return ""
+	}
+	init := g.Pkg.Func("init")
+	if init == nil {
+		return ""
+	}
+	want := strings.Join(path, ".")
+	res, n := "", 0
+	AllInstrs(init, func(in ssa.Instruction) {
+		sto, isSt := in.(*ssa.Store)
+		if !isSt {
+			return
+		}
+		var p2 []string
+		b := sto.Addr
+		for {
+			if fa, isFA := b.(*ssa.FieldAddr); isFA {
+				p2 = append([]string{fieldName(fa.X.Type(), fa.Field)}, p2...)
+				b = fa.X
+				continue
+			}
+			break
+		}
+		if b == ssa.Value(g) && strings.Join(p2, ".") == want {
+			res = Desc(sto.Val)
+			n++
+		}
+	})
+	if n != 1 {
+		return ""
+	}
+	// nobody else writes it
+	written := false
+	c.EachRootFunc(func(fn *ssa.Function) {
+		if fn == init {
+			return
+		}
+		AllInstrs(fn, func(in ssa.Instruction) {
+			if sto, isSt := in.(*ssa.Store); isSt && Root(sto.Addr) == ssa.Value(g) {
+				written = true
+			}
+		})
+	})
+	if written {
+		return ""
+	}
+	return res
 }
